@@ -1,6 +1,6 @@
 (* Properties/C03.v — auto-mode restructuring is compositional in its sub-specs. *)
 From Coq Require Import String ZArith Bool List.
-From Glom Require Import Base.PyVal Model.TEval Model.Interp Proofs.InterpProofs.
+From Glom Require Import Base.PyVal Model.TEval Model.Interp Proofs.InterpProofs Proofs.InvokeProofs.
 Import ListNotations.
 Local Open Scope string_scope.
 Local Open Scope list_scope.
@@ -54,6 +54,22 @@ Theorem glom_respects_scope : forall fixed fuel, rec_respects (glom_ fixed fuel)
 Proof. exact glom_respects_scope. Qed.
 Print Assumptions glom_respects_scope.
 
+(* Invoke combines its parts as documented.  (1) positional specs() parts are ONE left-to-right evaluation of all their specs,
+   spliced in the order given; (2) a keyword name given again by a later constants() / specs() call is evaluated only there: the
+   whole evaluation — result, errors and call log — is the one of the spec with the superseded keyword entries removed, whatever
+   stands before, between and after (star parts included) *)
+Theorem invoke_positional_parts : forall rec sc t sss accA accK,
+  eqM (invoke_loop rec sc t (map (fun ss => (1, ss, [])) sss) accA accK)
+      (let! xs := each_loop rec sc t (concat sss) in ret (accA ++ xs, accK)).
+Proof. exact invoke_positional_lemma. Qed.
+Print Assumptions invoke_positional_parts.
+
+Theorem invoke_later_keyword_wins : forall rec sc t pre tag ss kw r accA accK, tag < 2 ->
+  eqM (invoke_loop rec sc t (pre ++ (tag, ss, kw) :: r) accA accK)
+      (invoke_loop rec sc t (pre ++ (tag, ss, live_kw (later_names r) kw) :: r) accA accK).
+Proof. exact invoke_superseded_lemma. Qed.
+Print Assumptions invoke_later_keyword_wins.
+
 (* non-vacuity *)
 Definition ex_t : val := VDict 1 false [(VStr "a", VDict 2 false [(VStr "b", VInt 7)]); (VStr "l", VList 3 [VInt 1; VInt 2; VInt 3])].
 Example ex_tuple : fst (glom_top true [] ex_t (STuple [SStr "a"; SStr "b"])) = Ok (VInt 7).
@@ -61,3 +77,13 @@ Proof. vm_compute. reflexivity. Qed.
 Example ex_dict_skip : fst (glom_top true [] ex_t (SDict false [(SStr "x", SStr "a.b"); (SStr "y", STuple [SStr "l"; SList [SFn FSkipIfOdd]])]))
   = Ok (VDict 0 false [(VStr "x", VInt 7); (VStr "y", VList 0 [VInt 2])]).
 Proof. vm_compute. reflexivity. Qed.
+(* Invoke(rec).specs(1-probe, a=2-probe).constants(10, b='cb').specs(a=3-probe): 'a' is evaluated once, at its last position *)
+Definition ex_invoke : spec :=
+  SInvoke (SFn FRec) [(1, [STuple [SFn (FProbe 1); SVal (VInt 1)]], [("a", STuple [SFn (FProbe 2); SVal (VInt 2)])]);
+                      (0, [SLit (VInt 10)], [("b", SLit (VStr "cb"))]);
+                      (1, [], [("a", STuple [SFn (FProbe 3); SVal (VInt 3)])])].
+Example ex_invoke_run :
+  let '(r, st) := glom_top true [] (VInt 0) ex_invoke in
+  r = Ok (VTuple 0 [VTuple 0 [VInt 1; VInt 10]; VDict 0 false [(VStr "b", VStr "cb"); (VStr "a", VInt 3)]]) /\
+  map fst (log st) = [1; 3].
+Proof. vm_compute. split; reflexivity. Qed.
